@@ -206,7 +206,9 @@ def families(tier="quick"):
     fams = []
 
     def add(key, fn, functions, defd=False):
-        fams.append(Family(f"{PID}/{key}", fn, defd=defd, functions=functions))
+        _f = Family(f"{PID}/{key}", fn, defd=defd, functions=functions)
+        _f.abstract = True
+        fams.append(_f)
 
     for si, s in enumerate(lanes.SYS4):
         n = lanes.sysname(s)
